@@ -361,6 +361,38 @@ func init() {
 					},
 				})
 			}
+			// a few low-entropy texts of several thousand bytes (rank groups of more than 512 B* suffixes: median-of-nine
+			// pivots, heap sort and depth limits of the rank sort)
+			for _, n := range map[string][]int{"quick": {4099, 10000}, "thorough": {4099, 10000, 30011, 100003}}[tier] {
+				n := n
+				shards = append(shards, engine.Shard{
+					Name: fmt.Sprintf("C09/long-low-entropy/n%d", n),
+					Run: func(st *engine.Stats, col *engine.Collector) {
+						mk := func(u string) []byte {
+							t := make([]byte, n)
+							for i := range t {
+								t[i] = u[i%len(u)]
+							}
+							return t
+						}
+						texts := map[string][]byte{"(abb)^k": mk("abb"), "(abbab)^k": mk("abbab"), "(ab)^k": mk("ab"), "a^n": mk("a"), "(aab)^k a-tail": append(mk("aab")[:n-1], 'a'),
+							"thue-morse": ThueMorse(n, 'a', 'b'), "fibonacci": Fibonacci(n, 'a', 'b'), "period-doubling": PeriodDoubling(n, 'a', 'b'),
+							"fibonacci-bytes": Fibonacci(n, 0xff, 0x00), "thue-morse-bytes": ThueMorse(n, 0x80, 0x7f)}
+						names := make([]string, 0, len(texts))
+						for k := range texts {
+							names = append(names, k)
+						}
+						sort.Strings(names)
+						for i, k := range names {
+							checkSort(texts[k], i%4, fmt.Sprintf("%s(%d)", k, n), st, col, "C09")
+							st.Nontrivial++
+							st.States++
+							st.Add("long_low_entropy_texts", 1)
+							st.Max("max_text_len", int64(n))
+						}
+					},
+				})
+			}
 			// squares and cubes of two-unit periodic words, cut into shards by the letter assignment and head
 			maxTok, cubes := 5, false
 			if tier == "thorough" {
